@@ -18,8 +18,8 @@ import os
 from rv import gen, oracle
 
 PLAN = {
-    "quick": {"cases": 800, "hashseeds": 3, "shards": 5, "timeout": 420, "min_nontrivial": 350},
-    "thorough": {"cases": 6400, "hashseeds": 8, "shards": 2, "timeout": 3000, "min_nontrivial": 2500},
+    "quick": {"cases": 1600, "hashseeds": 3, "shards": 5, "timeout": 420, "min_nontrivial": 700},
+    "thorough": {"cases": 9600, "hashseeds": 8, "shards": 2, "timeout": 3000, "min_nontrivial": 4000},
 }
 if os.environ.get("RV_C11_CASES"):      # development knob: only the first N cases of the same case stream
     for _t in PLAN.values():
